@@ -88,6 +88,8 @@ class CapturedPath:
     if oriented_edge.orient == "-":
       for i in range(len(oss)):
         oss[i] = oss[i].inverted()
+      # the edge is traversed backwards: sid2 (inverted) comes first
+      oss.reverse()
     if len(items) > 1:
       nextitem = items[1]
       if isinstance(nextitem.line, gfapy.line.segment.GFA2):
